@@ -815,6 +815,24 @@ class Splicer:
             for l_ in fs.loops:
                 if l_.kw == "foreach" and l_.ordinal > fe_n and id(l_) not in foreach_as_loop:
                     raise Undecided("loop anchor lost: %s foreach#%d [demotable fn=%s]" % (key, l_.ordinal, key))
+        # R23: a closure literal `|(k, _)| g(k)` that only forwards the key of a pair to a captured `FnMut` local `g` (not used
+        #      afterwards) -> `key_adapter(g)`: Verus rejects closures that capture a mutable borrow; the trusted combinator
+        #      (model/lawfulness.rs) has exactly that closure as its body and says its requires/ensures are g's on the key
+        if fs.adapter == "key":
+            done_ = False
+            for c in cls:
+                ptext_ = rs.norm(toks, c["params_lo"], c["params_hi"])
+                m_ = re.match(r"^\| \( ([a-z_][a-z_0-9]*) , _ \) \|$", ptext_)
+                btext_ = rs.norm(toks, c["body_lo"], c["body_hi"])
+                m2_ = re.match(r"^([a-z_][a-z_0-9]*) \( ([a-z_][a-z_0-9]*) \)$", btext_)
+                if m_ and m2_ and m2_.group(2) == m_.group(1):
+                    before = rs.text_of(toks, c["params_lo"], c["body_hi"])
+                    newt = "key_adapter(%s)" % m2_.group(1)
+                    self.sub(c["params_lo"], c["body_hi"], newt, "R23")
+                    g.meta["r13_r14"].append({"fn": key, "rule": "R23", "before": before, "after": newt})
+                    done_ = True
+            if not done_:
+                raise Undecided("R23: closure `|(k, _)| g(k)` not found in %s [demotable fn=%s]" % (key, key))
         # R22 (constructor side): `<field>: PhantomData` -> `<field>: <ghost expression>` (the phantom borrow materialised)
         if fs.ghostinit:
             fld_, ex_ = fs.ghostinit
